@@ -328,6 +328,52 @@ def vkey_(v):
     return vkey(v)
 
 
+def r_read_after_operands(cg, rep, rule='R04.30'):
+    """R04.30: an assignment that merges new bits into the old contents of the object (bit-field) or copies bytes (aggregate) must read memory only
+    after BOTH operands have been evaluated: the operands are arbitrary expressions that may store to the same storage unit / object"""
+    from ..lib_c04_order import run_paths_ordered, check_read_after_operands
+    rep.rule(rule, 'read-modify-write of an lvalue reads the object after every operand of the node has been evaluated: no value loaded from program memory before an operand is generated '
+                   'is merged into a store or the result afterwards (bit-field assignment: the storage unit; aggregate assignment: the source bytes)', floor=11)
+    where = '%s:%d' % (U, cg.cu.fn('gen_expr').line)
+    for cat in ('char', 'uchar', 'short', 'ushort', 'int', 'uint', 'long', 'ulong', 'bool'):
+        pack = run_paths_ordered(cg, 'gen_expr', bitfield_node(cg, cat, 'ND_ASSIGN'))
+        check_read_after_operands(rep, rule, '%s:gen_expr:ND_ASSIGN-bitfield/%s:unit-read-after-operands' % (U, cat), pack, where, 'assignment to a bit-field of type %s' % cat)
+    for cls, kname in (('struct', 'TY_STRUCT'), ('union', 'TY_UNION')):
+        def mk(ctx, cls=cls, kname=kname):
+            t = Obj('Type', lazy=True, label='sty')
+            t.meta['cat'] = cls
+            t.fields.update({'kind': cg.E[kname], 'size': 3, 'align': 1, 'is_unsigned': 0, 'base': 0})
+            n = cg.node('node', 'ND_ASSIGN', ty=t)
+            n.fields['lhs'] = cg.node('lhs', ty=t, kind='ND_VAR')
+            n.fields['rhs'] = cg.node('rhs', ty=t)
+            return n
+        pack = run_paths_ordered(cg, 'gen_expr', mk)
+        check_read_after_operands(rep, rule, '%s:gen_expr:ND_ASSIGN-%s:source-read-after-operands' % (U, cls), pack, where, 'assignment of a %s' % cls)
+    for cat in ('int', 'long', 'char'):
+        def mka(ctx, cat=cat):
+            n = cg.node('node', 'ND_ASSIGN')
+            t = cg.tcell('ty', only=(cat,))
+            n.fields['ty'] = t
+            n.fields['lhs'] = cg.node('lhs', ty=t, kind='ND_VAR')
+            n.fields['rhs'] = cg.node('rhs', ty=t)
+            return n
+        pack = run_paths_ordered(cg, 'gen_expr', mka)
+        check_read_after_operands(rep, rule, '%s:gen_expr:ND_ASSIGN-scalar/%s:no-stale-read' % (U, cat), pack, where, 'assignment to a scalar of type %s' % cat, need_load=False)
+    if 'ND_CAS' in cg.E:
+        # compare-and-swap reads the expected value from *old: its three operands are evaluated first
+        for cat in ('char', 'int', 'long'):
+            def mkc(ctx, cat=cat):
+                n = cg.node('node', 'ND_CAS')
+                n.fields['ty'] = cg.tcell('nty', only=('bool',))
+                b = cg.tcell('obj', only=(cat,))
+                n.fields['cas_addr'] = cg.node('cas_addr', ty=cg.ptr_to(b, 'pa'))
+                n.fields['cas_old'] = cg.node('cas_old', ty=cg.ptr_to(b, 'po'))
+                n.fields['cas_new'] = cg.node('cas_new', ty=b)
+                return n
+            pack = run_paths_ordered(cg, 'gen_expr', mkc)
+            check_read_after_operands(rep, rule, '%s:gen_expr:ND_CAS/%s:expected-read-after-operands' % (U, cat), pack, where, 'compare-and-swap on an object of type %s' % cat)
+
+
 def r_copy_loops(cg, rep):
     rep.rule('R04.3', 'aggregate copies move byte i of the source to byte i of the destination for exactly i in [0, size)', floor=5)
     where = '%s:%d' % (U, cg.cu.fn('store').line if cg.cu.fn('store') else 0)
@@ -1088,11 +1134,16 @@ def run(P, rep, tier):
                        'R04.21 (initialising stores designate their sub-object relative to the enclosing one, C05 R05.1-R05.5/R05.7) re-issue the clauses of those properties that state where an object or sub-object lives. '
                        'R04.25 (merged tentative array definitions reserve the composite type, C15 R15.5) and R04.26 (no store into a shared Type/Member object, C08 R08.6) re-issue the clauses that keep the '
                        'extent of an object and the extent its lvalues are typed with the same; R04.27 evaluates struct_members() on concrete bit-field widths (the range the accessor and layout rules assume '
-                       'is enforced by a diagnostic); R04.28 evaluates declaration() on two declarators that share one variably modified type object.')
+                       'is enforced by a diagnostic); R04.28 evaluates declaration() on two declarators that share one variably modified type object. '
+                       'R04.29 runs the sequence emitted for ND_MEMZERO (rep stos and plain stores) on a grid of concrete objects - size, object alignment, type alignment, offset - and compares the set of '
+                       'zeroed bytes with the object\'s home; R04.30 stamps every read of program memory in the code of an assignment / compare-and-swap with the number of operand evaluations before it: a value '
+                       'read before an operand is generated must not reach a store or the result; R04.31 evaluates global_variable() on a redeclaration of a file-scope array and looks at the type of the Obj the '
+                       'name denotes afterwards; R04.32 evaluates parse_typedef() on a VLA declarator and then compute_vla_size() on the type bound to the typedef name: the length expression must not be reachable again.')
     rep.assumptions += ['gen_addr of a child leaves its address in %rax (contract, proved per kind by R04.4)', 'host arithmetic on layout fields is tracked as 64-bit unless the C type of the expression is narrower']
     r_load_store(cg, rep)
     r_aggregate_value(cg, rep)
     r_bitfield(cg, rep)
+    r_read_after_operands(cg, rep)
     r_copy_loops(cg, rep)
     r_addr(cg, rep)
     r_member_lookup(P, rep)
@@ -1118,6 +1169,11 @@ def run(P, rep, tier):
     from ..lib_c04 import r_zero_fill
     rep.rule('R04.14', 'a block-scope object (declared local or compound literal) with an initializer is zero-filled as a whole before its assignment chain runs, for every class whose initializer can leave bytes unmentioned: array, struct and union', floor=6)
     r_zero_fill(P, rep, 'R04.14')
+    from ..lib_c04_order import r_zero_fill_extent
+    rep.rule('R04.29', 'the zero fill of a block-scope object covers exactly the object: for every size, object alignment (Obj.align, which _Alignas and the 16-byte array rule raise above the '
+                       'type\'s) and type alignment the sequence gen_expr emits for ND_MEMZERO writes zero to each of the bytes [offset, offset + sizeof) of the home and to no other byte '
+                       '(rep stos and plain stores evaluated on a grid of concrete objects)', floor=30)
+    r_zero_fill_extent(cg, rep, 'R04.29')
     from ..lib_c04 import r_vla_object
     rep.rule('R04.15', 'a declared VLA object designates a block of exactly the run-time size of its type: the declaration computes the size variable first, allocates that many bytes and stores the block address in the hidden pointer of the new variable', floor=2)
     r_vla_object(P, rep, 'R04.15')
@@ -1143,6 +1199,10 @@ def run(P, rep, tier):
                        'expressions the compiler\'s own <stddef.h> produces for offsetof, array elements and nested designators included (shared with C08 R08.5)', floor=3)
     r_constant_bound(P, rep, 'R04.24')
     r_one_object_one_extent(P, cg, rep)
+    from ..lib_c04_order import r_redeclared_array_extent
+    rep.rule('R04.31', 'one object, one extent, also for the lvalues: after a file-scope array has been declared again, the Obj the scope maps the name to has the composite type - '
+                       '`int a[5]; int a[];` leaves sizeof a == 20 (the type of every later lvalue `a`), as `int a[]; int a[5];` does (global_variable() evaluated on a scope that already has the name)', floor=3)
+    r_redeclared_array_extent(P, rep, 'R04.31')
     r_type_objects_stay(P, rep, sub5)
     from ..lib_c04_decl import r_bitfield_width
     rep.rule('R04.27', 'a bit-field reaches the layout and the accessors only with a width they are sound for: struct_members() diagnoses a width that is negative, that exceeds the bits of the declared '
@@ -1154,3 +1214,7 @@ def run(P, rep, tier):
                        'declarators (typedef name, typeof), no later declarator rebinds Type.vla_size of the type - at any dimension - that an earlier object of the declaration already uses '
                        '(sizeof x and the strides of x[i] / p + n read it, R04.13; the block was allocated from it, R04.15)', floor=3)
     r_vla_size_stays(P, rep, 'R04.28')
+    from ..lib_c04_typedef import r_typedef_vla_extent
+    rep.rule('R04.32', 'the extent of an object declared through a typedef name of a variable-length array type is fixed when the typedef is reached (C11 6.7.8p8): the size computation a later '
+                       'declaration / sizeof evaluates for the type bound to the typedef name (compute_vla_size) does not reach the typedef\'s length expressions again, at any dimension', floor=2)
+    r_typedef_vla_extent(P, rep, 'R04.32')
